@@ -67,6 +67,21 @@ func RecvFilterList(c *rsyncwire.Conn) (*filterRuleList, error) {
 	return &l, nil
 }
 
+// ParseFilterRules builds a filter list from rules in the same textual form
+// in which RecvFilterList receives them (e.g. "- name", "+ name"), for use
+// when the sender runs on the side where the user specified the rules.
+func ParseFilterRules(rules []string) (*filterRuleList, error) {
+	var l filterRuleList
+	for _, line := range rules {
+		fr, err := parseFilter(line)
+		if err != nil {
+			return nil, err
+		}
+		l.addRule(fr)
+	}
+	return &l, nil
+}
+
 const (
 	filtruleInclude = 1 << iota
 	filtruleClearList
